@@ -7,6 +7,16 @@ ALL = [f"C{i:02d}" for i in range(1, 21)]
 HOOK_COMMITS = subprocess.run(["git", "-C", "/repo", "log", "--format=%h %s", "--grep", "^verif hook"], capture_output=True, text=True).stdout.strip().splitlines()
 
 CHECKS = {
+ "C01": dict(
+   category="exploration", design="DESIGN.md §4 C01",
+   technique="proptest-generated collector/filter histories on stepped OS threads in a fresh child process, judged after every emission against the current collector's own filter model (both directions)",
+   text="Histories of create(filter)/drop/install/uninstall/set-global/emit(event|span at 15 level x target macro callsites)/enabled!/rebuild/flip/reconfigure over 3 threads and 4 collector slots with self-consistent filters (level x target prefixes x static|dynamic x true-upper-bound hint). After every emission the recording collectors must show exactly one delivery to the thread's current collector iff its filter accepts at that moment, and none to anyone else; Span::is_disabled and enabled! must agree. One fresh process per history so every callsite's first hit and every cache state is reachable.",
+   note="Sequential histories (racing registration is C04). Default cargo features, so the compile-time max level stage is TRACE and never bites. Probes/is_disabled judged only when the thread has a current collector."),
+ "C03": dict(
+   category="exploration", design="DESIGN.md §4 C03",
+   technique="proptest-generated Span-API programs (stateful, 3 stepped threads, 2 recording collectors) compared call-by-call with a reference model plus whole-log balance invariants",
+   text="Programs over span!/clone/drop/enter/entered/exit/in_scope/record/follows_from/Span::current/or_current and Instrumented futures (tracing and tracing-futures) polled 0..n times and dropped at any point, on threads whose default is the span's own collector, another recorder or none. After every operation each collector's log must equal the model's exact expected call list (kind, id, thread, parent, fields); at the end every id has one new_span, try_close = 1 + clone_span, balanced enter/exit per thread, nothing after the last close, and no call on a foreign collector.",
+   note="Slots borrowed by a live enter() guard are not moved (borrowck would forbid it). Futures are polled with a no-op waker on the stepped threads."),
  "C02": dict(
    category="exploration", design="DESIGN.md §4 C02",
    technique="proptest-generated operation histories interpreted on stepped OS threads in a fresh child process, compared with a per-thread-stack + global reference model",
